@@ -38,6 +38,14 @@ Dev45micro(mm) == "F45micro" \in Deviations /\ F45micro(mm)
 Dev38(mm) == "F38" \in Deviations /\ F38(mm)
 Dev39(mm) == "F39" \in Deviations /\ F39(mm)
 
+\* structural equality of two Message values, field by field and item by item (TLC's built-in equality on a value built by Build and a value read
+\* from JSON ran into a Java StackOverflowError on nested Messages with non-flattenable fields)
+RECURSIVE SameMsg(_, _)
+SameMsg(a, b) == /\ a.what = b.what /\ Len(a.fields) = Len(b.fields)
+                 /\ \A i \in 1..Len(a.fields) :
+                       LET f == a.fields[i] g == b.fields[i] IN
+                       /\ f.name = g.name /\ f.type = g.type /\ Len(f.items) = Len(g.items)
+                       /\ \A j \in 1..Len(f.items) : IF Kind(f.type) = "message" THEN SameMsg(f.items[j], g.items[j]) ELSE f.items[j] = g.items[j]
 Same(ln, mm) == ln.b = Flatten(mm) /\ ln.z = FlattenedSize(mm)
 \* ln.r holds, for a leg that answered with OTHER bytes, those bytes (absent otherwise)
 Reply(ln, leg) == IF "r" \in DOMAIN ln /\ leg \in DOMAIN ln.r THEN ln.r[leg] ELSE <<>>
@@ -65,7 +73,7 @@ TCall   == /\ TraceLog[l].op \in Calls
 TVec    == /\ TraceLog[l].op = "Vec"
            /\ LET ln == TraceLog[l] IN
               /\ WellFormed(ln.m) /\ Same(ln, ln.m) /\ AgreeLn(ln, ln.m)
-              /\ "s" \in DOMAIN ln => Build(ln.s) = ln.m       \* the (not append-only) script the C++ Message was built by leaves this content
+              /\ "s" \in DOMAIN ln => SameMsg(Build(ln.s), ln.m)       \* the (not append-only) script the C++ Message was built by leaves this content
               /\ Common("python", ln.m) => TLCSet(3, TLCGet(3) + 1)
               /\ Common("pynative", ln.m) => TLCSet(4, TLCGet(4) + 1)
            /\ m' = m
@@ -77,7 +85,7 @@ TFrames == /\ TraceLog[l].op = "Frames"
 TPyEcho == /\ TraceLog[l].op = "PyEcho"
            /\ LET ln == TraceLog[l] IN
               /\ WellFormed(ln.m) /\ ln.b = Flatten(ln.m)
-              /\ "s" \in DOMAIN ln => Build(ln.s) = ln.m
+              /\ "s" \in DOMAIN ln => SameMsg(Build(ln.s), ln.m)
               /\ (Common("python", ln.m) /\ ~Dev39(ln.m)) => ln.same = 1 /\ TLCSet(3, TLCGet(3) + 1)
               /\ (Common("python", ln.m) /\ Dev39(ln.m) /\ ln.same # 1) => TLCSet(7, TLCGet(7) + 1)
            /\ m' = m
@@ -91,7 +99,7 @@ Track == TLCSet(1, l) /\ TLCSet(5, m)
 Clip(q) == IF Len(q) > 3000 THEN SubSeq(q, 1, 3000) ELSE q
 Expect(ln, mm) == IF ln.op \in Calls THEN LET r == ApplyStep(mm, ln) IN [op |-> ln.op, spec_b |-> Clip(Flatten(r.m)), spec_z |-> FlattenedSize(r.m), spec_ok |-> r.ok, code_b |-> Clip(ln.b), code_z |-> ln.z]
                   ELSE IF ln.op = "New" THEN [op |-> ln.op, spec_b |-> Clip(Flatten([what |-> ln.w, fields |-> <<>>])), code_b |-> Clip(ln.b)]
-                  ELSE IF ln.op \in {"Vec", "PyEcho"} THEN [op |-> ln.op, wellformed |-> WellFormed(ln.m), script_builds_content |-> IF "s" \in DOMAIN ln THEN Build(ln.s) = ln.m ELSE TRUE, spec_b |-> Clip(Flatten(ln.m)), spec_z |-> FlattenedSize(ln.m), code_b |-> Clip(ln.b),
+                  ELSE IF ln.op \in {"Vec", "PyEcho"} THEN [op |-> ln.op, wellformed |-> WellFormed(ln.m), script_builds_content |-> IF "s" \in DOMAIN ln THEN SameMsg(Build(ln.s), ln.m) ELSE TRUE, spec_b |-> Clip(Flatten(ln.m)), spec_z |-> FlattenedSize(ln.m), code_b |-> Clip(ln.b),
                                                            python |-> Common("python", ln.m), pynative |-> Common("pynative", ln.m), f38 |-> F38(ln.m), f39 |-> F39(ln.m), f45mini |-> F45mini(ln.m), f45micro |-> F45micro(ln.m), outcome |-> IF "o" \in DOMAIN ln THEN ln.o ELSE ln.same]
                   ELSE IF ln.op = "Frames" THEN [op |-> ln.op, spec_stream |-> Clip(FrameStream(ln.bs)), code_stream |-> Clip(ln.st), outcome |-> ln.o]
                   ELSE [op |-> ln.op]
